@@ -155,7 +155,7 @@ func c10Cases(c runCfg) ([]*scratch.Pkg, []string, map[string]interface{}) {
 		sp := &dialect.Spec{CompResponses: map[string]dialect.Response{}}
 		pkg := fmt.Sprintf("p%04d", pi)
 		bf := baseForms[pi%len(baseForms)]
-		sp.ServerURL, sp.ServerVar = bf.Server, bf.Vars
+		sp.ServerURL, sp.ServerVar, sp.MoreServers = bf.Server, bf.Vars, bf.More
 		var head []string // J lines first
 		// shared component responses: two with a code, one used as default, one alias
 		type comp struct {
@@ -198,6 +198,13 @@ func c10Cases(c runCfg) ([]*scratch.Pkg, []string, map[string]interface{}) {
 				o.ID = "list-items_v2"
 			}
 			ncodes := 1 + rng.Intn(3)
+			// every sixth document: one operation documents a component response under one status and an ALIAS of it under
+			// another (the same response twice: the generator refuses such a document; were it accepted, the two would share one
+			// write method and one of the two statuses would be written for both)
+			twice := pi%6 == 4 && oi == 2
+			if twice && ncodes < 2 {
+				ncodes = 2
+			}
 			perm := rng.Perm(len(c10Codes))[:ncodes]
 			var keys []string
 			for _, k := range perm {
@@ -223,6 +230,10 @@ func c10Cases(c runCfg) ([]*scratch.Pkg, []string, map[string]interface{}) {
 					}
 					r, pl = dialect.Response{Status: key, Ref: cm.name}, cm.pl
 					stats["component-default"]++
+				case key != "default" && twice && len(plans) <= 1:
+					cm := codeComps[[]int{0, 2}[len(plans)]]
+					r, pl = dialect.Response{Status: key, Ref: cm.name}, cm.pl
+					stats["component-and-its-alias"]++
 				case key != "default" && (rng.Intn(3) == 0 || (pi%6 == 5 && oi == 1 && len(plans) == 0)):
 					cm := codeComps[rng.Intn(len(codeComps))]
 					if pi%6 == 5 && oi == 1 && len(plans) == 0 {
